@@ -68,6 +68,88 @@ def dkey(k):
                  z3.If(is_None(k), sv("None"), z3.If(is_Bool(k), z3.If(bval(k), sv("1"), sv("0")), sv("?"))))))
 
 
+def ref_upper_bound(r):
+    """b such that r < b follows from the closedness / parameter assumptions (syntactic), else None."""
+    r = simp(r)
+    if z3.is_int_value(r):
+        return r.as_long() + 1
+    if z3.is_const(r) and r.decl().kind() == z3.Z3_OP_UNINTERPRETED and r.decl().name().endswith("_ref"):
+        return 1
+    if z3.is_app(r) and r.decl().eq(Val.rval):
+        x = r.arg(0)
+        if z3.is_const(x) and x.decl().kind() == z3.Z3_OP_UNINTERPRETED:
+            return 1 if (x.decl().name().startswith("p_") or x.decl().name().startswith("env_")) else None
+        if z3.is_app(x) and x.decl().kind() in (z3.Z3_OP_SELECT, z3.Z3_OP_SEQ_NTH):
+            a = x.arg(0)
+            if z3.is_app(a) and a.decl().kind() == z3.Z3_OP_SELECT:
+                a = a.arg(0)
+            if z3.is_const(a) and a.decl().kind() == z3.Z3_OP_UNINTERPRETED:
+                return ARRAY_BOUND.get(a.decl().name())
+    return None
+
+
+def refs_distinct(ex, st, r1, r2):
+    r1, r2 = simp(r1), simp(r2)
+    if r1.eq(r2):
+        return False
+    c1, c2 = z3.is_int_value(r1), z3.is_int_value(r2)
+    if c1 and c2:
+        return r1.as_long() != r2.as_long()
+    if c1 or c2:
+        c, o = (r1, r2) if c1 else (r2, r1)
+        b = ref_upper_bound(o)
+        if b is not None and c.as_long() >= b:
+            return True
+    return ex.quick(st, r1 != r2) if st is not None else False
+
+
+def heap_select(ex, st, arr, r):
+    """select(arr, r) for a ref-indexed heap array, resolving store chains with distinctness knowledge."""
+    r = simp(r)
+    cur = arr
+    for _ in range(400):
+        if z3.is_app(cur) and cur.decl().kind() == z3.Z3_OP_STORE:
+            idx = cur.arg(1)
+            if idx.eq(r):
+                return cur.arg(2)
+            if refs_distinct(ex, st, idx, r):
+                cur = cur.arg(0)
+                continue
+            return z3.If(idx == r, cur.arg(2), heap_select(ex, st, cur.arg(0), r))
+        if z3.is_app(cur) and cur.decl().kind() == z3.Z3_OP_ITE:
+            a, b = heap_select(ex, st, cur.arg(1), r), heap_select(ex, st, cur.arg(2), r)
+            if a.eq(b):
+                return a
+            return z3.If(cur.arg(0), a, b)
+        break
+    return z3.Select(cur, r)
+
+
+def hget(ex, st, r, ks):
+    return z3.Select(heap_select(ex, st, st.heap.DV, r), ks)
+
+
+def hhas(ex, st, r, ks):
+    return z3.Select(heap_select(ex, st, st.heap.DP, r), ks)
+
+
+def hlget(ex, st, r):
+    return heap_select(ex, st, st.heap.LS, r)
+
+
+def py_str2(ex, st, v):
+    if dyn_kind(ex, st, v) == "str":
+        return sval(v)
+    return py_str(v, st.heap)
+
+
+def dkey2(ex, st, k):
+    k = simp(k)
+    if static_tag(k) != "str" and ex.quick(st, is_Str(k)):
+        return sval(k)
+    return dkey(k)
+
+
 def ref_kind(ex, v):
     """Static kind of a reference value if known (T_*), else None."""
     v = simp(v)
@@ -111,6 +193,29 @@ def static_tag(v):
     return None
 
 
+def dyn_kind(ex, st, v):
+    """'str' / 'dict' / 'list' / 'tuple' / 'obj' / 'none' / None: static first, then a quick entailment test."""
+    tag = static_tag(v)
+    if tag == "ref":
+        k = ref_kind(ex, v)
+        if k is not None:
+            return {T_DICT: "dict", T_LIST: "list", T_TUPLE: "tuple", T_OBJ: "obj", T_SET: "set", T_EXC: "exc"}.get(k)
+    elif tag is not None:
+        return tag
+    if st is None:
+        return None
+    if tag == "ref" or ex.quick(st, is_Ref(v)):
+        r = rval(v)
+        for k, name in ((T_DICT, "dict"), (T_LIST, "list"), (T_TUPLE, "tuple"), (T_OBJ, "obj")):
+            if ex.quick(st, ty(r) == k):
+                return name
+        return None
+    if tag is None:
+        if ex.quick(st, is_Str(v)):
+            return "str"
+    return None
+
+
 def new_list(ex, st, vals, kind=T_LIST):
     r = ex.new_ref(kind)
     seq = EMPTY_SEQ
@@ -151,12 +256,12 @@ def norm_index(i, n):
 
 def get_item(ex, st, ctx, obj, k, node):
     tag = static_tag(obj)
-    kind = ref_kind(ex, obj) if tag == "ref" else None
-    if tag == "str":
+    dk = dyn_kind(ex, st, obj)
+    if dk == "str":
         return _str_index(ex, st, ctx, obj, k, node)
-    if tag == "ref" and kind in (T_DICT, T_OBJ):
+    if dk in ("dict", "obj"):
         return _dict_get(ex, st, ctx, obj, k, node)
-    if tag == "ref" and kind in (T_LIST, T_TUPLE):
+    if dk in ("list", "tuple"):
         return _list_get(ex, st, ctx, obj, k, node)
     if tag in ("none", "bool", "int", "float", "fn"):
         ex.raise_if(st, ctx, z3.BoolVal(True), "TypeError", node=node)
@@ -182,12 +287,12 @@ def get_item(ex, st, ctx, obj, k, node):
 
 
 def _dict_get(ex, st, ctx, obj, k, node):
-    ks = simp(dkey(k))
+    ks = simp(dkey2(ex, st, k))
     if z3.is_string_value(ks):
         ex.key_universe.add(ks.as_string())
     r = rval(obj)
-    ex.raise_if(st, ctx, z3.Not(st.heap.dhas(r, ks)), "KeyError", node=node)
-    return st.heap.dget(r, ks)
+    ex.raise_if(st, ctx, z3.Not(hhas(ex, st, r, ks)), "KeyError", node=node)
+    return ex.close_refs(hget(ex, st, r, ks))
 
 
 def seq_len(seq):
@@ -241,18 +346,18 @@ def seq_nth(seq, i):
 
 def _list_get(ex, st, ctx, obj, k, node):
     ex.raise_if(st, ctx, z3.Not(is_intlike(k)), "TypeError", node=node)
-    seq = simp(st.heap.lget(rval(obj)))
+    seq = simp(hlget(ex, st, rval(obj)))
     ki = simp(as_int(k))
     if z3.is_int_value(ki) and ki.as_long() >= 0:
         n = seq_len(seq)
         v = seq_nth(seq, ki.as_long())
         if v is not None:
             ex.raise_if(st, ctx, ki >= n, "IndexError", node=node)
-            return v
+            return ex.close_refs(v)
     n = z3.Length(seq)
     i = norm_index(as_int(k), n)
     ex.raise_if(st, ctx, z3.Or(i < 0, i >= n), "IndexError", node=node)
-    return seq[i]
+    return ex.close_refs(seq[i])
 
 
 def _str_index(ex, st, ctx, obj, k, node):
@@ -266,10 +371,10 @@ def _str_index(ex, st, ctx, obj, k, node):
 
 def set_item(ex, st, ctx, obj, k, v, node):
     tag = static_tag(obj)
-    kind = ref_kind(ex, obj) if tag == "ref" else None
-    if tag == "ref" and kind in (T_DICT, T_OBJ):
+    dk = dyn_kind(ex, st, obj)
+    if dk in ("dict", "obj"):
         return _dict_set(ex, st, ctx, obj, k, v)
-    if tag == "ref" and kind == T_LIST:
+    if dk == "list":
         return _list_set(ex, st, ctx, obj, k, v, node)
     if tag is not None and tag != "ref":
         ex.raise_if(st, ctx, z3.BoolVal(True), "TypeError", node=node)
@@ -288,7 +393,7 @@ def set_item(ex, st, ctx, obj, k, v, node):
 
 
 def _dict_set(ex, st, ctx, obj, k, v):
-    ks = simp(dkey(k))
+    ks = simp(dkey2(ex, st, k))
     if z3.is_string_value(ks):
         ex.key_universe.add(ks.as_string())
     st.heap = st.heap.dset(rval(obj), ks, v)
@@ -308,17 +413,17 @@ def _list_set(ex, st, ctx, obj, k, v, node):
 def del_item(ex, st, ctx, obj, k, node):
     isd = z3.And(is_Ref(obj), z3.Or(ty(rval(obj)) == T_DICT, ty(rval(obj)) == T_OBJ))
     isl = is_list(obj)
-    kind = ref_kind(ex, obj)
-    if kind in (T_DICT, T_OBJ):
+    dk = dyn_kind(ex, st, obj)
+    if dk in ("dict", "obj"):
         isd, isl = z3.BoolVal(True), z3.BoolVal(False)
-    elif kind == T_LIST:
+    elif dk == "list":
         isd, isl = z3.BoolVal(False), z3.BoolVal(True)
     ex.raise_if(st, ctx, z3.Not(z3.Or(isd, isl)), "TypeError", node=node)
     if st.dead:
         return
 
     def dd(x):
-        ks = simp(dkey(k))
+        ks = simp(dkey2(ex, st, k))
         ex.raise_if(x, ctx, z3.Not(x.heap.dhas(rval(obj), ks)), "KeyError", node=node)
         x.heap = x.heap.ddel(rval(obj), ks)
         return x
@@ -515,14 +620,21 @@ def _cheap(a, b):
 def contains(ex, st, ctx, container, item, node):
     tag = static_tag(container)
     kind = ref_kind(ex, container) if tag == "ref" else None
+    dk = dyn_kind(ex, st, container)
+    if dk is not None and tag != "ref":
+        tag = "ref" if dk in ("dict", "obj", "list", "tuple", "set") else dk
+    if dk in ("dict", "obj"):
+        kind = T_DICT
+    elif dk in ("list", "tuple", "set"):
+        kind = T_LIST
     if tag == "str":
         ex.raise_if(st, ctx, z3.Not(is_Str(item)), "TypeError", node=node)
         return str_contains(sval(container), sval(item))
     if tag == "ref" and kind in (T_DICT, T_OBJ):
-        ks = simp(dkey(item))
+        ks = simp(dkey2(ex, st, item))
         if z3.is_string_value(ks):
             ex.key_universe.add(ks.as_string())
-        return st.heap.dhas(rval(container), ks)
+        return hhas(ex, st, rval(container), ks)
     if tag == "ref" and kind in (T_LIST, T_TUPLE, T_SET):
         return _seq_contains(ex, st, container, item)
     if tag in ("none", "bool", "int", "float"):
@@ -532,7 +644,7 @@ def contains(ex, st, ctx, container, item, node):
     ex.raise_if(st, ctx, z3.Not(ok), "TypeError", node=node)
     ex.raise_if(st, ctx, z3.And(is_Str(container), z3.Not(is_Str(item))), "TypeError", node=node)
     r = rval(container)
-    ks = simp(dkey(item))
+    ks = simp(dkey2(ex, st, item))
     if z3.is_string_value(ks):
         ex.key_universe.add(ks.as_string())
     return z3.If(is_Str(container), z3.Contains(sval(container), sval(item)),
@@ -551,7 +663,7 @@ def str_contains(s, needle):
 
 
 def _seq_contains(ex, st, container, item):
-    seq = simp(st.heap.lget(rval(container)))
+    seq = simp(hlget(ex, st, rval(container)))
     ln = simp(z3.Length(seq))
     if z3.is_int_value(ln) and ln.as_long() <= 16:
         return z3.Or(*[py_eq(simp(seq[i]), item, st.heap) for i in range(ln.as_long())]) if ln.as_long() else z3.BoolVal(False)
